@@ -21,6 +21,9 @@ IP_CMD = re.compile(r"^PATH=/sbin:/bin ifconfig dns\d+ (%s) (%s) netmask (%s)$" 
 MTU_CMD = re.compile(r"^PATH=/sbin:/bin ifconfig dns\d+ mtu (\d+)$")
 
 
+TOOL_WORDS = {"addr", "address", "add", "dev", "link", "set", "mtu", "up", "netmask", "inet", "broadcast", "peer", "via", "route", "local"}
+
+
 def valid_mask(q):
     import socket
     import struct
@@ -43,6 +46,24 @@ def judge(cmd):
         n = int(m.group(1))
         return None if 200 < n <= 1500 else "mtu-out-of-range"
     if not s.startswith("PATH=/sbin:/bin ifconfig dns"):
+        # another tool or another spelling (iproute2, route ...): judged word by word.  Every word is one the tools themselves
+        # define, an interface name, a strict dotted quad (optionally /1..32), or a decimal number in range (after "mtu": 201..1500)
+        w = s.split(" ")
+        if len(w) >= 3 and re.match(r"^PATH=[a-z/:]+$", w[0]) and w[1] in ("ip", "ifconfig", "route"):
+            prev = None
+            for t in w[2:]:
+                if t in TOOL_WORDS or re.match(r"^(dns|tun|utun)\d{1,3}$", t):
+                    pass
+                elif re.match("^%s$" % Q_RE, t):
+                    pass
+                elif re.match("^%s/(\\d{1,2})$" % Q_RE, t) and 1 <= int(t.split("/")[1]) <= 32:
+                    pass
+                elif re.match(r"^\d{1,5}$", t) and (200 < int(t) <= 1500 if prev == "mtu" else int(t) <= 65535):
+                    pass
+                else:
+                    return "unknown-command-with-unvalidated-word"
+                prev = t
+            return None
         return "unknown-command"
     if re.search(r"[;|&$`'\"<>#\\\n\r*?~!{}()]", s):
         return "shell-metacharacter"
@@ -122,7 +143,9 @@ def scn(params):
         hs = mserver.HandshakeServer(scen.SERVER_IP, sim.domain, sim.password, hook=hook)
         k.add_actor(hs.ip, hs)
         qt = params["qtype"]
-        c = sim.client("cli0", "10.53.1.1", scen.SERVER_IP, ["-r", "-T", qt])
+        # (a third of the client hosts have no ifconfig - only iproute2 - should the program care)
+        c = sim.client("cli0", "10.53.1.1", scen.SERVER_IP, ["-r", "-T", qt],
+                       absent=["/sbin/ifconfig", "/bin/ifconfig", "/usr/sbin/ifconfig", "/usr/bin/ifconfig"] if params["idx"] % 3 == 1 else None)
         # until the client has left the login step (next handshake query), exited, or 20 virtual s
         sim.run_until(lambda: not c.alive() or any(s in ("Y", "Z", "S", "O", "I") and i > 2 for i, (s, _t) in enumerate(hs.steps)), 20 * US)
         cmds = [ev[3]["cmd"] for ev in k.log if ev[1] == "system"]
@@ -221,10 +244,13 @@ def engine_b(ctx, res, b):
         built.append((osname, exe))
     res.extra["os_configs_run"] = [x[0] for x in built]
     stats = {"tun_setip_calls": 0, "tun_setmtu_calls": 0, "commands_judged": 0, "calls_refused": 0}
-    for osname, exe in built:
+    # (every configuration twice: on a host with ifconfig and on one without, as far as tun.c can tell by access())
+    for osname, exe in [(o_, e_) for (o_, e_) in built] + [(o_ + "+no-ifconfig", e_) for (o_, e_) in built]:
         rng = random.Random(ctx.seed * 131 + 13)
         lines, meta = setip_cases(rng, n)
         env = dict(os.environ, ASAN_OPTIONS="abort_on_error=0:detect_leaks=0:exitcode=97", UBSAN_OPTIONS="print_stacktrace=1")
+        if osname.endswith("+no-ifconfig"):
+            env["TUNSET_NO_IFCONFIG"] = "1"
         try:
             r = subprocess.run([exe], input=("\n".join(lines) + "\n").encode(), capture_output=True, timeout=600, env=env)
         except subprocess.TimeoutExpired:
